@@ -355,7 +355,7 @@ def call_sync(case, src_root, dst_root, parallel=None, control_order=True, varia
         # a raise inside the thread pool leaves workers running: wait for them before looking at the disk
         for t in threading.enumerate():
             if t is not threading.current_thread() and t is not threading.main_thread():
-                t.join(10)
+                t.join(120)
     return res, fn, keys, sorted(consulted)
 
 
